@@ -197,8 +197,8 @@ def probe_check(prop, tier, seed, sd, t0, probe_pkg, mc, trace_module, trace_cfg
     for v in mine:
         k = None
         for kf in vlib.known_findings():
-            if kf.get('status') == 'known' and kf['property'] == prop and kf['clause'] == v[0]:
-                # a known finding is identified by its clause AND the probe scenario of the line
+            if kf.get('status') == 'known' and kf['property'] == prop and (kf['clause'] == v[0] or (isinstance(kf['clause'], list) and v[0] in kf['clause'])):
+                # a known finding is identified by its clause(s) AND the probe scenario of the line
                 ln = lines[v[1] - 1]
                 scns = kf.get('scenario')
                 scns = scns if isinstance(scns, list) else [scns]
